@@ -339,7 +339,7 @@ def execute(case, hook=None):
                 seeds = [s for s, _ in mine][:k]
                 fresh = [s for s in range(60) if s not in have and s not in seeds]
                 if style != "driven":
-                    seeds += rng.sample(fresh, max(0, k - len(seeds)))
+                    seeds += rng.sample(fresh, min(len(fresh), max(0, k - len(seeds))))
                 if not seeds:
                     continue
                 items = cut_batch(l, x, [(s, value(x)) for s in seeds], stats)
